@@ -44,6 +44,9 @@ CHECKS = {
  "C19": dict(level="exploration", technique="exhaustive enumeration of declaration layouts (tokens, modes, @external, @emit, two files) up to a length bound; read-back of constants, _TokenToString AST, decoded lexer accept parameters and parser table keys; sentence written with expected constants executed on the real runtime",
    text="For every layout the three generated files agree on one numbering, which is the textual declaration order with EOF=0 and ERROR=1: const block, _TokenToString, accept parameters in the decoded mode tables, keys of the decoded parser tables (against the reference automaton), and an end-to-end parse using the expected constants.",
    note="Expected numbering computed by the harness from the text it printed. @external names cannot be referenced from the parser section (lox rejects that), so the parser references token rules only.", ref="DESIGN.md section C19"),
+ "C17": dict(level="fault_enumeration", technique="single-fault enumeration: every fault of a catalogue placed at every applicable syntactic site of well-formed base specifications, plus benign variants; front end executed on each",
+   text="Every fault of the catalogue at every site is rejected with a diagnostic whose file:line lies inside the faulty declaration (the harness prints the text, so it knows the spans); every benign variant of the well-formed bases is accepted.",
+   note="Bounded by the two base specifications and the catalogue in cmd/loxmc/c17.go. A mode block cannot be re-opened in lox, so in-mode sites stay in the mode's file.", ref="DESIGN.md section C17"),
 }
 
 NA_REASON = "check not built yet (work in progress; see DESIGN.md for the plan)"
